@@ -150,6 +150,12 @@ def fingerprint(term) -> int:
 class SBool:
     __slots__ = ("e",)
 
+    def __getattr__(self, name):
+        # an operation the proxy does not model is "unsupported" (inconclusive), never an AttributeError inside the code under test
+        if name.startswith("__") or name in type(self).__slots__:
+            raise AttributeError(name)
+        raise Abort("unsupported", f"{type(self).__name__}.{name}")
+
     def __init__(self, e):
         self.e = e
 
@@ -211,6 +217,12 @@ class SNum:
     """Symbolic number: z3 Int (Python int semantics) or Real (exact; stands for seconds)."""
 
     __slots__ = ("e",)
+
+    def __getattr__(self, name):
+        # an operation the proxy does not model is "unsupported" (inconclusive), never an AttributeError inside the code under test
+        if name.startswith("__") or name in type(self).__slots__:
+            raise AttributeError(name)
+        raise Abort("unsupported", f"{type(self).__name__}.{name}")
 
     def __init__(self, e):
         self.e = e
